@@ -30,14 +30,14 @@ package gogen
 //@ ensures imp(!typeis(t, *types.Basic), result == t)
 
 //@ func outOfRange
-//@ prop C05
+//@ prop C05 C01
 //@ readonly
 //@ requires 2 <= tkind && tkind <= 12
 //@ requires imp(cval != nil, cWf(cval) && cKind(cval) >= 3)
 //@ ensures result == (cval != nil && !(cIm(cval) == real(0) && IntMin(tkind) <= cRe(cval) && cRe(cval) <= IntMax(tkind)))
 
 //@ func assignableTo
-//@ prop C05
+//@ prop C05 C01
 //@ readonly
 //@ requires V != nil && T != nil
 //@ requires types.AssignableTo(V, T)
@@ -710,7 +710,7 @@ package gogen
 // the overload-candidate loops (C06): candidates are tried in index order, and after every failed attempt the
 // argument elements are restored from the backup before the next candidate is tried.
 //@ func matchFuncCall
-//@ prop C06
+//@ prop C06 C11
 //@ partial
 //@ trustedframe
 //@ requires pkg != nil && fn != nil && forall(i, 0, len(args), args[i] != nil)
@@ -723,6 +723,9 @@ package gogen
 //@ loop 1 entry rangeslice() == ft.Funcs
 //@ loop 2 entry rangeslice() == ft.Methods
 //@ assertcall chgObject[inloop(1)]: arg_v == o && arg_old == fn
+//@ loop 5 invariant n <= i && i <= nreq && imp(allOptional, forall(k, n, i, OptParamOf(pkg, getParam(sig, k))))
+//@ loop 6 invariant n <= i && i <= nreq && len(newArgs) == nreq
+//@ assertcall@C11 Zero: arg_typ == getParam(sig, i).Type() && n <= i && i < nreq
 
 //@ func (*CodeBuilder).CallWithEx
 //@ prop C16 C10
@@ -1021,7 +1024,7 @@ package gogen
 // C05 — public predicates on basic types (composite / named / generic types are delegated to go/types)
 
 //@ func AssignableConv
-//@ prop C05
+//@ prop C05 C01
 //@ assigns when(pv != nil, pv.Val), when(pv != nil, pv.Type)
 //@ requires pkg != nil && V != nil && T != nil && typeis(V, *types.Basic) && typeis(T, *types.Basic) && pkg.implicitCast == nil
 //@ requires ValidBasic(V) && ValidBasic(T) && OperandWfFor(V, pv)
@@ -1548,3 +1551,50 @@ package gogen
 //@ ensures len(rets) == 0 ==> (results.Len() == 0 || !(results == nil || exists(j, 0, results.Len(), results.At(j).Name() == "")))
 //@ ensures len(rets) == 1 && typeis(old(rets[0].Type), *types.Tuple) ==> old(rets[0].Type).(*types.Tuple).Len() == results.Len()
 //@ ensures len(rets) >= 1 && !(len(rets) == 1 && typeis(old(rets[0].Type), *types.Tuple)) ==> len(rets) == results.Len() && forall(j, 0, len(rets), Matched(rets[j], results.At(j).Type()))
+
+// ---------------------------------------------------------------------------
+// C11 — language extensions (the parts that are functions of their arguments)
+
+// lower-case method alias / auto property: under an alias flag a name that starts with a lower-case ASCII letter
+// denotes the method with that letter capitalised, a name that starts with '_' the method XGo_<name>; any other name
+// has no alias (the flag falls back to plain member access, except for method-to-function lookups)
+//@ func aliasNameOf
+//@ prop C11 C08
+//@ readonly
+//@ ensures imp(flag > 0 && name != "" && name[0] >= 97 && name[0] <= 122, result0 == CapFirst(name) && result1 == flag)
+//@ ensures imp(flag > 0 && name != "" && name[0] == 95, result0 == "XGo" + name && result1 == flag)
+//@ ensures imp(!(flag > 0 && name != "" && ((name[0] >= 97 && name[0] <= 122) || name[0] == 95)), result0 == "")
+//@ ensures imp(flag > 0 && name != "" && !((name[0] >= 97 && name[0] <= 122) || name[0] == 95), result1 == ite(flag == 128, flag, 0))
+//@ ensures imp(!(flag > 0 && name != ""), result1 == flag)
+
+// optional parameters: a signature is accepted only in the order positional, optional, variadic; the variadic
+// parameter is never optional
+//@ func (*Package).validateParamOrder
+//@ prop C11
+//@ readonly
+//@ requires cb != nil
+//@ loop 0 invariant 0 <= i && i <= n && n == params.Len() && forall(j, 0, i, imp(OptParam(p, params.At(j)), !(variadic && j == n - 1)))
+//@ loop 0 invariant foundOptional == exists(j, 0, i, OptParam(p, params.At(j)))
+//@ loop 0 invariant forall(j, 0, i, forall(k, 0, j, imp(OptParam(p, params.At(k)), OptParam(p, params.At(j)) || (variadic && j == n - 1))))
+//@ ensures imp(result == nil, forall(j, 0, params.Len(), imp(OptParam(p, params.At(j)), !(variadic && j == params.Len() - 1))))
+//@ ensures imp(result == nil, forall(j, 0, params.Len(), forall(k, 0, j, imp(OptParam(p, params.At(k)), OptParam(p, params.At(j)) || (variadic && j == params.Len() - 1)))))
+
+// a parameter is optional if the package being built registered it, or (imported functions) by its name prefix
+//@ func isParamOptional
+//@ prop C11
+//@ readonly
+//@ requires pkg != nil && param != nil
+//@ ensures result == OptParamOf(pkg, param)
+
+
+// Go spec "Selectors": a type's own methods (depth 0) take precedence over members promoted from embedded structs.
+// In findMember the promoted search (field / embeddedField) of a named struct type, reached directly or through a
+// pointer, only starts after the type's own direct fields and methods were consulted
+//@ func (*CodeBuilder).findMember
+//@ prop C08
+//@ partial
+//@ requires typ != nil && arg != nil && p.pkg != nil && p.pkg.Types != nil
+//@ ghostset method methodTried
+//@ loop 0 invariant imp(named == nil, typ == entry(typ) && !ghost(methodTried))
+//@ assertcall embeddedField: ghost(methodTried)
+//@ assertcall field: ghost(methodTried) || named != nil || !(typeis(entry(typ), *types.Pointer) && typeis(types.Unalias(entry(typ).(*types.Pointer).Elem()), *types.Named))
